@@ -346,7 +346,7 @@ def run_history(case):
     from flipjump.fjm.fjm_consts import FJMVersion
     from flipjump.utils.functions import get_stl_paths
     from sim import case as C
-    stl_paths = get_stl_paths()
+    stl_paths = list(get_stl_paths())
     stl_dir = str(fj_parser._STL_DIR)
     mon = sys.monitoring
     from sim import sigint
@@ -412,11 +412,14 @@ def run_history(case):
         d = base / f'op{oi}'
         d.mkdir(exist_ok=True)
         tuples = []
+        # every call asks the library for the standard-library file list again, as a caller does, and afterwards treats
+        # the list it was given as its own (appends to it, reorders it): a returned value must not be shared state
+        stl_now = get_stl_paths()
         state['edit'] = op.get('edit')
         state['edit_done'] = False
         for short, kind, ref in cfg['files']:
             if kind == 'stl':
-                tuples.append((short, stl_paths[ref]))
+                tuples.append((short, stl_now[ref]))
             elif kind == 'lib':
                 tuples.append((short, libdir / ref[0]))
             else:
@@ -472,6 +475,9 @@ def run_history(case):
                 cnt, sfired = _sig.status()
                 _sig.arm(-1)
                 kernel.drain_interrupt()
+                if isinstance(stl_now, list):
+                    stl_now.reverse()
+                    stl_now.append(d / 'caller-owned.fj')
         except kernel.WatchdogTimeout:
             raise
         except BaseException as e:  # noqa
